@@ -515,6 +515,66 @@ fn test_zoned(c: &ZPair, cx: &mut Cx) -> CaseResult {
     }
     ensure!(a.duration_until(&b).as_nanos() == total && a.duration_since(&b).as_nanos() == -total, "zoned-duration", "{ctx}: duration_until wrong");
     ensure!((&b - &a).fieldwise() == a.until(&b).unwrap().fieldwise(), "zoned-sub-operator", "{ctx}: &b - &a differs from a.until(&b)");
+    // differences that take their other end from a larger type (a Date until a Zoned, a Time
+    // until a DateTime, ...) use that value's date / time / civil datetime / instant
+    {
+        fn same(x: &Result<jiff::Span, jiff::Error>, y: &Result<jiff::Span, jiff::Error>) -> bool {
+            match (x, y) {
+                (Ok(p), Ok(q)) => p.fieldwise() == q.fieldwise(),
+                (Err(_), Err(_)) => true,
+                _ => false,
+            }
+        }
+        let u = UNITS[largest];
+        let (ad, at, adt, ats) = (a.date(), a.time(), a.datetime(), a.timestamp());
+        let (bd, bt, bdt, bts) = (b.date(), b.time(), b.datetime(), b.timestamp());
+        let mut bad: Vec<&str> = vec![];
+        if largest <= 3 {
+            let want = ad.until((u, bd));
+            if !(same(&want, &ad.until((u, &b))) && same(&want, &ad.until((u, b.clone()))) && same(&want, &ad.until((u, bdt)))) {
+                bad.push("Date::until((unit, Zoned | &Zoned | DateTime))");
+            }
+            let want = ad.since((u, bd));
+            if !(same(&want, &ad.since((u, &b))) && same(&want, &ad.since((u, bdt)))) {
+                bad.push("Date::since((unit, &Zoned | DateTime))");
+            }
+        }
+        let want = ad.until(bd);
+        if !(same(&want, &ad.until(&b)) && same(&want, &ad.until(b.clone())) && same(&want, &ad.until(bdt))) {
+            bad.push("Date::until(Zoned | &Zoned | DateTime)");
+        }
+        if largest >= 4 {
+            let want = at.until((u, bt));
+            if !(same(&want, &at.until((u, &b))) && same(&want, &at.until((u, b.clone()))) && same(&want, &at.until((u, bdt)))) {
+                bad.push("Time::until((unit, Zoned | &Zoned | DateTime))");
+            }
+            let want = ats.until((u, bts));
+            if !(same(&want, &ats.until((u, &b))) && same(&want, &ats.until((u, b.clone())))) {
+                bad.push("Timestamp::until((unit, Zoned | &Zoned))");
+            }
+        }
+        let want = at.until(bt);
+        if !(same(&want, &at.until(&b)) && same(&want, &at.until(b.clone())) && same(&want, &at.until(bdt)) && same(&at.since(bt), &at.since(&b))) {
+            bad.push("Time::until(Zoned | &Zoned | DateTime)");
+        }
+        let want = ats.until(bts);
+        if !(same(&want, &ats.until(&b)) && same(&want, &ats.until(b.clone())) && same(&ats.since(bts), &ats.since(&b))) {
+            bad.push("Timestamp::until(Zoned | &Zoned)");
+        }
+        let want = adt.until((u, bdt));
+        if !(same(&want, &adt.until((u, &b))) && same(&want, &adt.until((u, b.clone()))) && same(&adt.since((u, bdt)), &adt.since((u, &b)))) {
+            bad.push("DateTime::until((unit, Zoned | &Zoned))");
+        }
+        let want = adt.until((u, bd.to_datetime(jiff::civil::Time::midnight())));
+        if !same(&want, &adt.until((u, bd))) {
+            bad.push("DateTime::until((unit, Date))");
+        }
+        let want = adt.until(bdt);
+        if !(same(&want, &adt.until(&b)) && same(&want, &adt.until(b.clone())) && same(&adt.until(bd.to_datetime(jiff::civil::Time::midnight())), &adt.until(bd))) {
+            bad.push("DateTime::until(Zoned | &Zoned | Date)");
+        }
+        ensure!(bad.is_empty(), "difference-cross-type-forms", "{ctx}: these forms differ from the same-type difference: {bad:?}");
+    }
     let _ = Timestamp::UNIX_EPOCH;
     Ok(())
 }
